@@ -96,7 +96,7 @@ def expected_refs(case, basenames):
         refs.append('STDOUT')
     if not case.get('no_stderr'):
         refs.append('STDERR')
-    low = [r.lower() for r in refs]
+    low = ['stdout', 'stderr']       # reserved whatever the options say
     for bn in basenames:
         if bn.lower() in low:
             return None
